@@ -2,6 +2,8 @@ package bftsim
 
 import (
 	"fmt"
+	"sort"
+	"strings"
 	"time"
 
 	"verif/simkit"
@@ -127,9 +129,13 @@ func RunLiveness(c *simkit.Ctx) {
 		for _, n := range w.honest() {
 			c.Check()
 			if n.bft.Height == w.gstHeight+1 && n.bft.Round > limit {
-				c.ReportFor("C15", "bounded-liveness", "no-commit-within-round-budget",
-					fmt.Sprintf("GST at %v with highest correct round %d, worst phase skew %v (round limit %d); correct replica n%d reached round %d at %v and no correct replica has committed height %d",
-						w.cfg.gst, w.gstRound, w.worstSkew, limit, n.idx, n.bft.Round, w.now(), w.gstHeight+1))
+				// what kept the correct replicas from voting? (the error they logged most often after GST, if it
+				// accounts for at least one rejection per two rounds: it names the history that failed)
+				cause, why := w.stuckCause(int(n.bft.Round))
+				defer func() { committedAfterGST = true }() // a listed known finding lets Report return: the run ends here
+				c.ReportFor("C15", "bounded-liveness", "no-commit-within-round-budget"+cause,
+					fmt.Sprintf("GST at %v with highest correct round %d, worst phase skew %v (round limit %d); correct replica n%d reached round %d at %v and no correct replica has committed height %d%s",
+						w.cfg.gst, w.gstRound, w.worstSkew, limit, n.idx, n.bft.Round, w.now(), w.gstHeight+1, why))
 			}
 		}
 		return false
@@ -258,4 +264,46 @@ func (w *world) livenessLimit() uint64 {
 		base = need
 	}
 	return base + livenessK
+}
+
+// stuckCause classifies a liveness failure by the error correct replicas logged most after GST.
+func (w *world) stuckCause(rounds int) (sigSuffix, detail string) {
+	// errors that abort a replica's PROPOSE_VOTE phase (the proposal is not voted on) take precedence over
+	// noise such as rejected evidence or duplicate votes
+	for _, k := range []string{"invalid root chain build height", "failed safe node predicate", "mismatch evidence and header", "mismatched proposals"} {
+		if n := w.errAfterGST[k]; n*2 >= rounds {
+			return ":" + strings.ReplaceAll(k, " ", "-"), fmt.Sprintf("; correct replicas logged %q %d times after GST", k, n)
+		}
+	}
+	best, bestN := "", 0
+	var ks []string
+	for k := range w.errAfterGST {
+		ks = append(ks, k)
+	}
+	sort.Strings(ks)
+	for _, k := range ks {
+		if n := w.errAfterGST[k]; n > bestN {
+			best, bestN = k, n
+		}
+	}
+	if best == "" || bestN*2 < rounds {
+		return "", ""
+	}
+	slug := strings.Map(func(r rune) rune {
+		switch {
+		case r >= 'a' && r <= 'z', r >= '0' && r <= '9':
+			return r
+		case r >= 'A' && r <= 'Z':
+			return r + 32
+		}
+		return '-'
+	}, best)
+	for strings.Contains(slug, "--") {
+		slug = strings.ReplaceAll(slug, "--", "-")
+	}
+	slug = strings.Trim(slug, "-")
+	if len(slug) > 60 {
+		slug = slug[:60]
+	}
+	return ":" + slug, fmt.Sprintf("; correct replicas logged %q %d times after GST", best, bestN)
 }
